@@ -15,6 +15,7 @@ mod idcheck;
 mod gen_games;
 mod master;
 mod gs3;
+mod http;
 mod net;
 mod quake;
 mod reader;
@@ -51,6 +52,7 @@ fn entries() -> Vec<(&'static str, EntryFn)> {
     v.extend(minecraft::entries());
     v.extend(gs3::entries());
     v.extend(small::entries());
+    v.extend(http::entries());
     v
 }
 
